@@ -13,7 +13,7 @@ import (
 	"mambasim/driver"
 )
 
-const budget = 20_000_000
+const budget = 200_000_000
 
 // minimalStates builds the trie of words and merges states with equal right
 // languages bottom-up; the number of classes is the size of the minimal DFA
@@ -89,6 +89,9 @@ func genWords(r *driver.Run) []string {
 	lmul := 1
 	if long {
 		lmul = 8
+		if t.Chance(1, 4) {
+			lmul = 40 // chains of more than 64 nodes below a branching node
+		}
 		r.Probe("long-words")
 	}
 	word := func(max int) string {
@@ -116,6 +119,9 @@ func genWords(r *driver.Run) []string {
 	if t.Chance(1, 12) {
 		k = 60 + t.Draw(240) // occasionally a large set: long registers, wide nodes
 		r.Probe("large-word-set")
+	}
+	if lmul > 8 && k > 12 {
+		k = 12 // very long words: keep the set small (the builder's register scan is quadratic in the number of nodes)
 	}
 	for i := 0; i < k; i++ {
 		switch t.Draw(4) {
@@ -371,7 +377,7 @@ func runOne(r *driver.Run) {
 	var lang []string
 	var walk func(i int, pre []byte, depth int)
 	walk = func(i int, pre []byte, depth int) {
-		if len(lang) > len(accepted)+2 || depth > 64 {
+		if len(lang) > len(accepted)+2 || depth > 400 {
 			return
 		}
 		if nodes[i].Final {
@@ -440,7 +446,7 @@ func main() {
 		Rule: "a case is one seeded build history: a word set (<= 25 draws over alphabets of 1, 2, 3, 4, 26 or 256 letters incl. 0x00/0xFF, digits, digits+separators, shaped from shared prefix and suffix pools, words that are prefixes of others, optionally the empty word as nil or []byte{}) added through New, a zero Builder, Initialise, or a re-initialised Builder, with rejected additions (duplicate, earlier word, proper prefix) interleaved at a per-run rate and optionally one reused argument buffer. " +
 			"Every Add's error must match the model; after Finish: NumberOfWords, Lookup of every member, every proper prefix, one-byte substitutions and extensions and tape strings, the node count against an independently computed minimal DFA, and the enumerated language of the automaton. Non-trivial = at least 3 accepted words and at least one shared suffix state (fewer nodes than the trie); distinct = distinct fingerprints of the observed lookups and node counts.",
 		Assumptions: []string{
-			"words are at most 8 bytes (one run in 10: up to 64 bytes with long shared prefixes); sets have at most 25 words (one run in 5: 20-90, one in 12: 60-300 draws)",
+			"words are at most 8 bytes (one run in 10: up to 64 bytes, one in 40: up to 320 bytes, with long shared prefixes and suffixes); sets have at most 25 words (one run in 5: 20-90, one in 12: 60-300 draws)",
 			"the automaton is read through the verif-tagged accessor dawg.VerifNodes (add-only file in /repo, build tag verif)",
 			"no schedule or I/O exists in this code: the simulator contributes seeded histories with rejected operations, the lock-step model, minimisation and replay",
 		},
